@@ -32,6 +32,7 @@ def erase {α : Type} (k : Nat) : List (Nat × α) → List (Nat × α)
 structure Window (α : Type) where
   next : Nat
   packets : List (Nat × α)
+  deriving DecidableEq, Repr
 
 /-- `(packet_id - self.next) & 0xFFFF >= 0x8000` for `packet_id, next ∈ [0, 65535]` -/
 def isDup (next id : Nat) : Bool := decide ((id + 65536 - next) % 65536 ≥ 32768)
